@@ -97,12 +97,23 @@ class _OsProxy(object):
     def __init__(self, opts):
         self._o = opts
 
+    def _alloc(self):
+        # like the kernel: the lowest descriptor number that is not open
+        fd = 10
+        while fd in self._o.open_fds:
+            fd += 1
+        self._o.open_fds.add(fd)
+        self._o.fd_flags.pop(fd, None)
+        return fd
+
     def pipe(self):
-        r = self._o.next_fd
-        self._o.next_fd += 2
-        return r, r + 1
+        r = self._alloc()
+        return r, self._alloc()
 
     def close(self, fd):
+        if fd not in self._o.open_fds:
+            raise OSError(errno.EBADF, 'bad file descriptor')
+        self._o.open_fds.discard(fd)
         self._o.closed_fds.append(fd)
 
     def __getattr__(self, name):
@@ -125,15 +136,20 @@ class _FcntlProxy(object):
         return getattr(_real_fcntl, name)
 
 
-def real_make_pipes(opts, stderr):
+def _real_options_call(opts, method, *args):
+    """run a method of the REAL ServerOptions over the os/fcntl proxies"""
     import supervisor.options as so
     saved = so.os, so.fcntl
     so.os, so.fcntl = _OsProxy(opts), _FcntlProxy(opts)
     try:
-        inst = so.ServerOptions.__new__(so.ServerOptions)     # no option parsing needed for make_pipes
-        return so.ServerOptions.make_pipes(inst, stderr)
+        inst = so.ServerOptions.__new__(so.ServerOptions)     # no option parsing needed for these methods
+        return getattr(so.ServerOptions, method)(inst, *args)
     finally:
         so.os, so.fcntl = saved
+
+
+def real_make_pipes(opts, stderr):
+    return _real_options_call(opts, 'make_pipes', stderr)
 
 
 class FakeOptions(object):
@@ -152,6 +168,7 @@ class FakeOptions(object):
         self.stdin_pipes = {}    # fd -> FakePipe
         self.closed_fds = []
         self.fd_flags = {}       # fd -> status flags set through fcntl(F_SETFL)
+        self.open_fds = set()    # descriptor numbers in use (lowest free number is handed out next)
 
     # --- system-call seam
     def make_pipes(self, stderr=True):
@@ -163,15 +180,34 @@ class FakeOptions(object):
         return fds
 
     def close_parent_pipes(self, pipes):
-        for k in ('stdin', 'stdout', 'stderr'):
-            if pipes.get(k) is not None:
-                self.closed_fds.append(pipes[k])
+        _real_options_call(self, 'close_parent_pipes', pipes)      # the real method: descriptor numbers become free
 
     def close_child_pipes(self, pipes):
-        pass
+        _real_options_call(self, 'close_child_pipes', pipes)
+
+    fork_fails = False
 
     def fork(self):
+        if self.fork_fails:
+            raise OSError(errno.EAGAIN, 'resource temporarily unavailable')
         return self.next_pid
+
+    # --- what Supervisor.run() touches besides the process groups
+    nodaemon = True
+    first = False
+    process_group_configs = ()
+
+    def openhttpservers(self, supervisord):
+        pass
+
+    def setsignals(self):
+        pass
+
+    def write_pidfile(self):
+        pass
+
+    def cleanup(self):
+        pass
 
     def readfd(self, fd):
         return self.reads.pop(fd, b'')
@@ -247,7 +283,7 @@ class Pool(object):
 
     def __init__(self, options, name, nlisteners, buffer_size=10, pool_events=(), handler=None,
                  priority=999, proc_priority=999, group_class=None, proc_prefix=None,
-                 gconfig_class=None, maker=None):
+                 gconfig_class=None, maker=None, defer=False):
         self.options = options
         # process names are unique within a group only: proc_prefix lets different pools use the same names
         self.pconfigs = [listener_config(options, '%s%d' % (proc_prefix or name, i), proc_priority) for i in range(nlisteners)]
@@ -255,10 +291,18 @@ class Pool(object):
                                                                   list(pool_events), handler or sdisp.default_handler)
         # real EventListenerPool (subscribes itself); group_class may be a recording subclass
         # maker: creates the group from the config some other real way (Supervisor.add_process_group)
+        self.write_log = []
+        self.sent_bytes = []
+        if defer:
+            return          # the group is made later from self.gconfig (Supervisor.run()); then call attach(group)
         if maker is not None:
-            self.group = maker(self.gconfig)
+            group = maker(self.gconfig)
         else:
-            self.group = self.gconfig.make_group() if group_class is None else group_class(self.gconfig)
+            group = self.gconfig.make_group() if group_class is None else group_class(self.gconfig)
+        self.attach(group)
+
+    def attach(self, group):
+        self.group = group
         self.procs = [self.group.processes[c.name] for c in self.pconfigs]
         assert list(self.group.processes.values()) == self.procs
         self.write_log = []
@@ -293,11 +337,21 @@ class Pool(object):
         return getattr(p, '_vpipe', None)
 
     # --- operations (return None when the model's guard is not met)
+    misrouted = None
+
     def op_feed(self, i, data):
+        """the child of listener i wrote `data` to its stdout: the main loop finds the dispatcher of
+        that descriptor number in the combined map of the group (get_dispatchers, as runforever does)"""
         p = self.procs[i]
-        d = self.stdout_disp(p)
-        if d is None or not d.readable():
+        own = self.stdout_disp(p)
+        if own is None or not own.readable():
             return False
+        d = self.group.get_dispatchers().get(own.fd)
+        if d is not own:
+            # judged by the monitors: the bytes of this child reach another process's dispatcher
+            self.misrouted = (i, [k for k, q in enumerate(self.procs) if d is not None and q is d.process])
+        if d is None or not d.readable():
+            return True
         self.options.reads[d.fd] = data
         d.handle_read_event()
         return True
@@ -324,6 +378,20 @@ class Pool(object):
         r = p.spawn()
         assert r == pid
         p._vpipe = self.options.stdin_pipes[p.pipes['stdin']]
+        return True
+
+    def op_spawnfail(self, i):
+        """spawn() whose fork() fails: pipes and dispatchers were made, then everything is closed again"""
+        p = self.procs[i]
+        if p.pid or p.state not in (ProcessStates.EXITED, ProcessStates.FATAL,
+                                    ProcessStates.BACKOFF, ProcessStates.STOPPED):
+            return False
+        self.options.fork_fails = True
+        try:
+            r = p.spawn()
+        finally:
+            self.options.fork_fails = False
+        assert r is None and p.state == ProcessStates.BACKOFF and not p.pid
         return True
 
     def op_running(self, i):
